@@ -132,7 +132,7 @@ impl Prop for C03 {
         if idx % 12 == 11 && !cfg!(miri) {
             return self.edge_case(rng, ctx);
         }
-        let o = Opts { data: true, func: true, tron: rng.coin(), stop: true, max_lines: 24, input: true, frac: rng.coin(), strings: rng.coin() };
+        let o = Opts { data: true, func: true, tron: rng.coin(), stop: true, max_lines: 24, input: true, frac: rng.coin(), strings: rng.coin(), arrays: rng.coin() };
         let p = gen::generate(rng, o);
         let plines = gen::render_spelled(&p, rng.next_u64());
         let mut s = Session::new();
@@ -992,7 +992,7 @@ impl C18 {
     /// statements; the reference interpreter says how many FOR and GOSUB frames are open at each
     /// marker, the real value stack is read through the probe each time Z9 changes.
     fn shape_case(&self, rng: &mut Rng, ctx: &mut Ctx) {
-        let o = Opts { data: rng.coin(), func: rng.chance(1, 3), tron: false, stop: false, max_lines: 30, input: false, frac: rng.coin(), strings: rng.chance(1, 3) };
+        let o = Opts { data: rng.coin(), func: rng.chance(1, 3), tron: false, stop: false, max_lines: 30, input: false, frac: rng.coin(), strings: rng.chance(1, 3), arrays: rng.coin() };
         let mut p = gen::generate(rng, o);
         let passes = rng.range(2, 9);
         if !gen::loop_and_mark(&mut p, rng, passes) {
